@@ -457,10 +457,13 @@ theorem rangeState_shortcut (c : MCtx) (q : MetricQuery) (fn : RangeFn) (hk : q.
 theorem planPhases_shortcut (o : Oracles) (c : MCtx) (hn : c.namesOk) (d : LokiDb) (q : MetricQuery) (fn : RangeFn)
     (hk : q.rangeAgg.kind = .lra fn) (hfn : fn = .rate ∨ fn = .countOverTime) (hdiv : q.rangeAgg.durNs % slot15 = 0)
     (hd : 0 < q.rangeAgg.durNs) (hok : aggOk q)
-    (hm : q.rangeAgg.sel.matchers.length ≤ 63) (hms : 1000000 ∣ q.rangeAgg.durNs)
+    (hm : q.rangeAgg.sel.matchers.length ≤ 63)
     (hts : ∀ s ∈ d.samples, 0 ≤ s.ts)
     (htriv : ∀ s ∈ d.samples, (lineFilters q.rangeAgg.sel).all (fun f => lineHolds o f s.str) = true) :
     (evalSelA o (d.toDbM c) (planPhases true c q)).map normRow = matrixPts o c d q (lo15 c) (hi15 c) := by
+  have hms : 1000000 ∣ q.rangeAgg.durNs := by
+    have h15 : (1000000 : Nat) ∣ slot15 := by decide
+    exact Nat.dvd_trans h15 (Nat.dvd_of_mod_eq_zero hdiv)
   have hdiv' : ((q.rangeAgg.durNs : Nat) : Int) % (slot15 : Int) = 0 := by
     have := congrArg (fun (n : Nat) => (n : Int)) hdiv
     simpa using this
@@ -488,13 +491,13 @@ theorem planPhases_shortcut (o : Oracles) (c : MCtx) (hn : c.namesOk) (d : LokiD
     shortcut. The direct reading is the one over the window rounded down to whole 15 s slots (`effWindow`). -/
 theorem planMetric_shortcut (o : Oracles) (c : MCtx) (hn : c.namesOk) (d : LokiDb) (q : MetricQuery)
     (hs : takesShortcut q = true) (hok : aggOk q)
-    (hm : q.rangeAgg.sel.matchers.length ≤ 63) (hms : 1000000 ∣ q.rangeAgg.durNs)
+    (hm : q.rangeAgg.sel.matchers.length ≤ 63)
     (hts : ∀ s ∈ d.samples, 0 ≤ s.ts)
     (htriv : ∀ s ∈ d.samples, (lineFilters q.rangeAgg.sel).all (fun f => lineHolds o f s.str) = true) :
     (evalSelA o (d.toDbM c) (planMetric c q)).map normRow = evalMetric o c d q := by
   obtain ⟨fn, hk, hfn, hdiv, hge⟩ := takesShortcut_spec q hs
   have hd : 0 < q.rangeAgg.durNs := Nat.lt_of_lt_of_le (by decide : 0 < slot15) hge
-  rw [planMetric_phases, hs, planPhases_shortcut o c hn d q fn hk hfn hdiv hd hok hm hms hts htriv, evalMetric_matrixPts]
+  rw [planMetric_phases, hs, planPhases_shortcut o c hn d q fn hk hfn hdiv hd hok hm hts htriv, evalMetric_matrixPts]
   unfold effWindow
   simp [hs, lo15, hi15]
 
@@ -504,14 +507,14 @@ theorem planMetric_shortcut (o : Oracles) (c : MCtx) (hn : c.namesOk) (d : LokiD
     planned) return the same matrix. -/
 theorem shortcut_plan_eq_function_plan (o : Oracles) (c : MCtx) (hn : c.namesOk) (d : LokiDb) (q : MetricQuery)
     (hs : takesShortcut q = true) (hok : aggOk q)
-    (hm : q.rangeAgg.sel.matchers.length ≤ 63) (hms : 1000000 ∣ q.rangeAgg.durNs)
+    (hm : q.rangeAgg.sel.matchers.length ≤ 63)
     (hts : ∀ s ∈ d.samples, 0 ≤ s.ts)
     (htriv : ∀ s ∈ d.samples, (lineFilters q.rangeAgg.sel).all (fun f => lineHolds o f s.str) = true)
     (hfrom : lo15 c = c.fromNs) (hto : hi15 c = c.toNs) :
     (evalSelA o (d.toDbM c) (planPhases true c q)).map normRow = (evalSelA o (d.toDbM c) (planPhases false c q)).map normRow := by
   obtain ⟨fn, hk, hfn, hdiv, hge⟩ := takesShortcut_spec q hs
   have hd : 0 < q.rangeAgg.durNs := Nat.lt_of_lt_of_le (by decide : 0 < slot15) hge
-  rw [planPhases_shortcut o c hn d q fn hk hfn hdiv hd hok hm hms hts htriv, planPhases_lra o c hn d q fn hk hok hm hms hd,
+  rw [planPhases_shortcut o c hn d q fn hk hfn hdiv hd hok hm hts htriv, planPhases_lra o c hn d q fn hk hok hm hd,
     hfrom, hto]
 
 end Qryn.LogQL
